@@ -35,6 +35,15 @@ type dErr struct{ p, k int }
 func (e dErr) Error() string                  { return fmt.Sprintf("node %d/%d failed", e.p, e.k) }
 func (e dErr) VerifNode() eventlogger.NodeID { return dnid(e.p, e.k) }
 
+// dCtxErr: a node error that wraps a context error although Send's own context is fine (the node's own deadline)
+type dCtxErr struct {
+	dErr
+	ctxErr error
+}
+
+func (e dCtxErr) Error() string   { return e.dErr.Error() + ": " + e.ctxErr.Error() }
+func (e dCtxErr) Unwrap() []error { return []error{e.dErr, e.ctxErr} }
+
 func dnid(p, k int) eventlogger.NodeID { return eventlogger.NodeID(fmt.Sprintf("n%d_%d", p, k)) }
 
 type dCall struct {
@@ -59,6 +68,10 @@ func (n *dNode) Process(ctx context.Context, e *eventlogger.Event) (*eventlogger
 	case 'E': // an error together with a non-nil event: the error must still end the traversal
 		out = e
 		err = dErr{n.p, n.k}
+	case 'x': // the node's OWN deadline expired (its error wraps context.DeadlineExceeded); Send's context is fine
+		err = dCtxErr{dErr{n.p, n.k}, context.DeadlineExceeded}
+	case 'y': // likewise, wrapping context.Canceled
+		err = dCtxErr{dErr{n.p, n.k}, context.Canceled}
 	default:
 		err = dErr{n.p, n.k}
 	}
@@ -234,6 +247,19 @@ func runDispatch(c dispCase, seed uint64, st *stats, oracle func(string, ...any)
 		}
 		return 0
 	}()):
+		// the cancel took effect but Send is still there although only nodes are blocking: it has to return
+		// promptly "even if nodes are still running"
+		h.mu.Lock()
+		cancelledNow := h.cancel == nil
+		h.mu.Unlock()
+		if cancelledNow {
+			select {
+			case res = <-resCh:
+				resCh <- res
+			case <-time.After(1500 * time.Millisecond):
+				oracle("C03 Send did not return within 1.5s of the cancel while nodes were still running (it waits for them): %s", c)
+			}
+		}
 		// no cancel took effect (or none requested): let the slow nodes go and wait for Send
 		releaseAll()
 		select {
@@ -278,7 +304,7 @@ func runDispatch(c dispCase, seed uint64, st *stats, oracle func(string, ...any)
 	impl = append(impl, "cfg")
 	for p, outs := range c.outs {
 		sinks := strings.Repeat("0", len(outs)-1) + "1"
-		ops = append(ops, fmt.Sprintf("pipe %d %s %s", p, outs, sinks))
+		ops = append(ops, fmt.Sprintf("pipe %d %s %s", p, strings.NewReplacer("x", "e", "y", "e").Replace(outs), sinks))
 		impl = append(impl, "pipe")
 	}
 	var got []string
@@ -350,7 +376,7 @@ func runDispatch(c dispCase, seed uint64, st *stats, oracle func(string, ...any)
 		// stop index
 		stop := len(outs) - 1
 		for k := 0; k < len(outs); k++ {
-			if outs[k] == 'd' || outs[k] == 'e' || outs[k] == 'E' {
+			if outs[k] == 'd' || outs[k] == 'e' || outs[k] == 'E' || outs[k] == 'x' || outs[k] == 'y' {
 				stop = k
 				break
 			}
@@ -452,7 +478,7 @@ func genDispCase(p *prng) dispCase {
 		l := 2 + p.intn(4)
 		b := make([]byte, l)
 		for k := range b {
-			b[k] = "pppprrdeE"[p.intn(9)]
+			b[k] = "pppprrdeExy"[p.intn(11)]
 		}
 		if p.chance(1, 2) {
 			b[l-1] = 'd' // sinks return (nil,nil)
